@@ -401,6 +401,9 @@ func (pl *pool) runProgram(ps ProgramSpec) ProgramResult {
 			case <-tk.C:
 				q.mu.Lock()
 				fmt.Fprintf(os.Stderr, "[gosym]   ... %s: %d paths started, %d queued, %d active, %.0fs\n", ps.Harness, q.paths, len(q.stack), q.active, time.Since(t0).Seconds())
+				if forkProfile {
+					printForkSites(8, false)
+				}
 				q.mu.Unlock()
 			}
 		}
@@ -480,6 +483,9 @@ func (pl *pool) runProgram(ps ProgramSpec) ProgramResult {
 	res.Pruned = total.Pruned
 	res.Decisions = total.Decisions
 	res.Fresh = total.Fresh
+	if forkProfile {
+		printForkSites(25, true)
+	}
 	res.Steps = total.Steps
 	res.MaxPathSteps = total.MaxPathSteps
 	res.Queries = total.Queries
@@ -662,4 +668,27 @@ func (w *W) takeSample(status string) {
 		}
 	}
 	w.lastSample = &Sample{Nondet: nd, Trail: append([]decision(nil), w.trail...), Events: append([]string(nil), w.events...), Steps: w.steps, Status: status}
+}
+
+func printForkSites(n int, reset bool) {
+	type kv struct {
+		k string
+		v int
+	}
+	var l []kv
+	forkMu.Lock()
+	for k, v := range forkSites {
+		l = append(l, kv{k, v})
+	}
+	if reset {
+		forkSites = map[string]int{}
+	}
+	forkMu.Unlock()
+	sort.Slice(l, func(i, j int) bool { return l[i].v > l[j].v })
+	for i, e := range l {
+		if i >= n {
+			break
+		}
+		fmt.Fprintf(os.Stderr, "[forks] %6d %s\n", e.v, e.k)
+	}
 }
